@@ -98,6 +98,7 @@ type Monitor struct {
 	// own signed messages each validator put on the wire: validator -> height -> WAL payloads
 	sentOwn     map[int]map[int64][][]byte
 	RememberChecks int
+	ImportDelays   int
 }
 
 type crashState struct {
@@ -501,6 +502,12 @@ func (m *Monitor) checkRemembered(inc *Inc, walDir string) {
 	}
 }
 
+func (m *Monitor) countImportDelay() {
+	m.mu.Lock()
+	m.ImportDelays++
+	m.mu.Unlock()
+}
+
 func (m *Monitor) onRestart(inc *Inc) {
 	m.mu.Lock()
 	m.restarts++
@@ -535,6 +542,7 @@ type Summary struct {
 	Equivocations int
 	DurableChecks int
 	RememberChecks int
+	ImportDelays int
 	SentAfterRestartSameHeight int
 	HeightsAgreedBy2 int
 	VoteOrderSig string
@@ -551,7 +559,7 @@ func (m *Monitor) Summary() *Summary {
 		Crashes: append([]CrashDesc(nil), m.crashes...), Notes: append([]string(nil), m.notes...),
 		MaxFinalized: m.maxFin, MaxRound: m.maxRound, Votes: len(m.votes), Proposals: len(m.props),
 		Restarts: m.restarts, RestartFailed: m.RestartFailed, Equivocations: m.Equivocations, DurableChecks: m.DurableChecks,
-		SentAfterRestartSameHeight: m.SentAfterRestartSameHeight, RememberChecks: m.RememberChecks, TearClasses: map[string]int{}, FramingOK: true}
+		SentAfterRestartSameHeight: m.SentAfterRestartSameHeight, RememberChecks: m.RememberChecks, ImportDelays: m.ImportDelays, TearClasses: map[string]int{}, FramingOK: true}
 	for _, v := range m.votes {
 		if v.Type == 1 {
 			s.Precommits++
